@@ -1435,8 +1435,13 @@ func (ctx *RenderContext) getAttribute(obj interface{}, attr string) (interface{
 		if entry.ptrMethod {
 			// Need a pointer to the struct
 			if isPtr {
-				// Object is already a pointer, use the original value
-				method = reflect.ValueOf(obj).Method(entry.methodIndex)
+				// Object is already a pointer, use the original value. A named pointer type
+				// (type P *T) has no methods of its own: the methods are those of *T
+				ptrValue := reflect.ValueOf(obj)
+				if ptrType := reflect.PtrTo(objType); ptrValue.Type() != ptrType {
+					ptrValue = ptrValue.Convert(ptrType)
+				}
+				method = ptrValue.Method(entry.methodIndex)
 			} else {
 				// Create a new pointer to the struct
 				ptrValue := reflect.New(objType)
